@@ -19,6 +19,20 @@ if os.path.isdir(cd):
         if fn.endswith(".json"):
             claims[fn[:-5].upper()] = json.load(open(os.path.join(cd, fn)))
 
+# later additions to a claim (kept apart from the original claim texts so that the history stays readable)
+add_file = os.path.join(HERE, "tools", "claims_addenda.json")
+if os.path.exists(add_file):
+    for pid, a in json.load(open(add_file)).items():
+        if pid in claims:
+            claims[pid] = dict(claims[pid])
+            if a.get("text_add"):
+                claims[pid]["text"] = claims[pid]["text"] + " " + a["text_add"]
+            for old, new in a.get("note_replace", []):
+                assert old in claims[pid]["note"], (pid, old)
+                claims[pid]["note"] = claims[pid]["note"].replace(old, new)
+            if a.get("note_add"):
+                claims[pid]["note"] = claims[pid]["note"] + " " + a["note_add"]
+
 enabled = set(open(os.path.join(HERE, "tools", "enabled.txt")).read().split())
 checks, na = [], []
 for p in props:
